@@ -182,6 +182,8 @@ def validIdentifier (s : String) : Bool :=
   | [] => false
   | c :: cs => (c.isAlpha || c == '_') && cs.all (fun d => d.isAlphanum || d == '_') && !luaKeywords.contains s
 
+def identOk (s : String) : Bool := s == "$default" || s == "$roblox" || validIdentifier s
+
 def requireModeNames : List String := ["path", "luau", "roblox"]
 
 def hasKind (ext : Ext) : PKind → Json → Bool
@@ -195,7 +197,7 @@ def hasKind (ext : Ext) : PKind → Json → Bool
   | .requireMode, .str s => requireModeNames.contains s
   | .any, _ => true
   | .identList, .arr xs => match strList? xs with
-    | some ss => ss.all (fun s => s == "$default" || s == "$roblox" || validIdentifier s)
+    | some ss => ss.all identOk
     | none => false
   | _, _ => false
 
@@ -279,17 +281,21 @@ def build (kind : RuleKind) (props : List (String × Json)) : Params :=
       ((lookup "env" props).map fun v => strOf (some v))
       ((lookup "env_json" props).map fun v => strOf (some v))
 
+def propKindOk (ext : Ext) (kind : RuleKind) (kv : String × Json) : Bool :=
+  match kindOfKey kind kv.1 with
+  | some pk => hasKind ext pk kv.2
+  | none => false
+
+/-- objects `{name: …}` and, through serde's sequence form of tagged enums, arrays like `[1]` can be
+require modes: not described by this model -/
+def requireModeUnmodelled (kind : RuleKind) (kv : String × Json) : Bool :=
+  kindOfKey kind kv.1 == some .requireMode && (match kv.2 with | .str _ => false | _ => true)
+
 /-- a rule's `configure`, uniformly: unknown property, ill-kinded property, required/colliding properties -/
 def configure (ext : Ext) (kind : RuleKind) (props : List (String × Json)) : Except Err Params :=
   if !(props.all fun kv => (kindOfKey kind kv.1).isSome) then .error "unexpected-field"
-  else if props.any (fun kv => kindOfKey kind kv.1 == some .requireMode
-      && (match kv.2 with | .str _ => false | _ => true)) then
-    -- objects `{name: …}` and, through serde's sequence form of tagged enums, arrays like `[1]` can be
-    -- require modes: not described by this model
-    .error "unmodelled"
-  else if !(props.all fun kv => match kindOfKey kind kv.1 with
-      | some pk => hasKind ext pk kv.2
-      | none => false) then .error "kind-expected"
+  else if props.any (requireModeUnmodelled kind) then .error "unmodelled"
+  else if !(props.all (propKindOk ext kind)) then .error "kind-expected"
   else if !constraintsOk kind props then .error "required-or-collision"
   else if !(props.all fun kv => simpleValue kv.2) then .error "unmodelled"
   else .ok (build kind props)
@@ -315,28 +321,31 @@ structure RuleScan where
   skip : Option (List String) := none
   props : List (String × Json) := []
 
-/-- the `while let Some(key) = map.next_key()` loop of `visit_map` -/
+def firstDuplicate : List String → Option String
+  | [] => none
+  | k :: rest => if rest.contains k then some k else firstDuplicate rest
+
+def specialKey (k : String) : Bool := k == "rule" || k == "apply_to_files" || k == "skip_files"
+
+/-- the `while let Some(key) = map.next_key()` loop of `visit_map`, without its duplicate checks: the Rust
+loop answers `duplicate field` as soon as a key comes a second time (`rule_name.is_none()`,
+`only_patterns.is_none()`, `skip_patterns.is_none()`, `properties.insert(..).is_some()`); the model makes
+that one test in front of the loop (`deserializeRule`), which accepts and rejects the same objects. -/
 def scanRule (ext : Ext) : RuleScan → List (String × Json) → Except Err RuleScan
   | acc, [] => .ok acc
   | acc, (k, v) :: rest =>
     if k == "rule" then
-      match acc.name, v with
-      | some _, _ => .error "duplicate-field"
-      | none, .str s => scanRule ext { acc with name := some s } rest
-      | none, _ => .error "expected-string"
+      match v with
+      | .str s => scanRule ext { acc with name := some s } rest
+      | _ => .error "expected-string"
     else if k == "apply_to_files" then
-      match acc.apply with
-      | some _ => .error "duplicate-field"
-      | none => match oneOrMany ext v with
-        | .ok ps => scanRule ext { acc with apply := some ps } rest
-        | .error e => .error e
+      match oneOrMany ext v with
+      | .ok ps => scanRule ext { acc with apply := some ps } rest
+      | .error e => .error e
     else if k == "skip_files" then
-      match acc.skip with
-      | some _ => .error "duplicate-field"
-      | none => match oneOrMany ext v with
-        | .ok ps => scanRule ext { acc with skip := some ps } rest
-        | .error e => .error e
-    else if hasKey k acc.props then .error "duplicate-field"
+      match oneOrMany ext v with
+      | .ok ps => scanRule ext { acc with skip := some ps } rest
+      | .error e => .error e
     else scanRule ext { acc with props := acc.props ++ [(k, v)] } rest
 
 /-- `impl Deserialize for Box<dyn Rule>` -/
@@ -348,7 +357,8 @@ def deserializeRule (ext : Ext) : Json → Except Err Rule
       | .ok p => .ok { name := name, params := p, apply := [], skip := [] }
       | .error e => .error e
   | .obj kvs =>
-    match scanRule ext {} kvs with
+    if (firstDuplicate (kvs.map (·.1))).isSome then .error "duplicate-field"
+    else match scanRule ext {} kvs with
     | .error e => .error e
     | .ok scan =>
       match scan.name with
@@ -443,10 +453,6 @@ def defaultRules : List Rule :=
    plainRule "remove_method_definition", plainRule "convert_index_to_field", plainRule "remove_nil_declaration",
    { name := "rename_variables", params := .rename ["$default"] false true, apply := [], skip := [] },
    plainRule "remove_function_call_parens"]
-
-def firstDuplicate : List String → Option String
-  | [] => none
-  | k :: rest => if rest.contains k then some k else firstDuplicate rest
 
 /-- struct variant `{ column_span }` of the internally tagged `GeneratorParameters` -/
 def columnSpanOf (fields : List (String × Json)) : Except Err Nat :=
@@ -644,5 +650,29 @@ def ruleLossless (r : Rule) : Bool :=
 
 /-- H₁₉ -/
 def lossless (c : Config) : Bool := c.rules.all ruleLossless
+
+/-! ### well-formed states (what deserialisation produces; the harness checks it on every accepted input) -/
+
+def paramsWF (ext : Ext) : RuleKind → Params → Bool
+  | .plain, .plain => true
+  | .appendText, .appendText _ _ => true
+  | .preserve, .preserve _ => true
+  | .regexes _, .regexes xs => xs.all ext.regexOk
+  | .strategy, .strategy _ => true
+  | .convertRequire, .convertRequire c t => requireModeNames.contains c && requireModeNames.contains t
+  | .rename, .rename g _ _ => normalizeGlobals g == g && g.all identOk
+  | .inject, .inject _ v d e ej =>
+    !(v.isSome && e.isSome) && !(v.isSome && ej.isSome) && !(e.isSome && ej.isSome) && !(v.isSome && d.isSome)
+  | _, _ => false
+
+def ruleWF (ext : Ext) (r : Rule) : Bool :=
+  match ruleKind? r.name with
+  | some kind => paramsWF ext kind r.params && r.apply.all ext.globOk && r.skip.all ext.globOk
+  | none => false
+
+def configWF (ext : Ext) (c : Config) : Bool :=
+  c.rules.all (ruleWF ext)
+    && (match c.bundle with | some b => dedupKeepFirst b.excludes == b.excludes | none => true)
+    && c.apply.all ext.globOk && c.skip.all ext.globOk
 
 end DarkluaModel.C19
